@@ -124,6 +124,45 @@ func runC15(c *Ctx) {
 		c.check(good, "U1", fname(f)+"/delegates", c.pos(f.Pos()), "returns the result of "+w.callee, w.name+" no longer returns the result of "+w.callee+": validation can be bypassed")
 	}
 
+	// ---- U18 ----------------------------------------------------------------
+	// "loading fills every field … from a flag, the environment variable, the file and the supplied defaults": decoding the
+	// defaults structure into the session is what tells viper the keys of the structure — variables are looked up, and flags
+	// linked, for keys it knows only. The decode is therefore made whatever the defaults hold: skipped where they 'are
+	// empty' (reflection.IsEmpty follows pointers and takes an all-zero structure for empty) the environment and the flags
+	// are silently ignored for a caller whose defaults are all zero.
+	c.rule("U18", "LoadFromEnvironment decodes the defaults structure it was given into the session on every path that merges it (mapstructure.Decode of the parameter dominates MergeConfigMap), except where the parameter was found nil", 1)
+	{
+		dp := paramIndexByName(load, "defaultConfiguration")
+		var dec *ssa.Call
+		allInstrs(load, func(in ssa.Instruction) {
+			if cl, ok := in.(*ssa.Call); ok && strings.HasSuffix(calleeFull(&cl.Call), "mapstructure.Decode") && len(cl.Call.Args) > 0 && dp >= 0 {
+				for _, l := range sources(cl.Call.Args[0], deriveOpts{}) {
+					if resolveValue(l) == ssa.Value(load.Params[dp]) {
+						dec = cl
+					}
+				}
+			}
+		})
+		key := fname(load) + "/defaults-decoded-whatever-they-hold"
+		switch {
+		case dec == nil:
+			c.violate("U18", key, c.pos(load.Pos()), "LoadFromEnvironment no longer decodes its defaults parameter: the session does not learn the keys of the structure")
+		case merge == nil:
+			c.violate("U18", key, c.pos(load.Pos()), "LoadFromEnvironment no longer merges the decoded defaults into the session")
+		default:
+			esc := pathPruned(load, nil, func(i ssa.Instruction) bool { return i == ssa.Instruction(dec) }, func(i ssa.Instruction) bool { return i == ssa.Instruction(merge) }, func(b *ssa.BasicBlock, k int) bool {
+				ifi, ok := b.Instrs[len(b.Instrs)-1].(*ssa.If)
+				if !ok {
+					return false
+				}
+				x, nilSucc, ok := nilTest(ifi)
+				return ok && resolveValue(x) == ssa.Value(load.Params[dp]) && k == nilSucc
+			})
+			c.check(esc == nil, "U18", key, c.ipos(dec), "the defaults are decoded on every path to the merge",
+				"the merge of the defaults can be reached without the defaults structure having been decoded (the decode is made conditional on what the structure holds): for defaults that are all zero — which reflection.IsEmpty takes for 'none' — the session never learns the keys of the structure, no environment variable is looked up and no flag is linked: loading ignores both, and either fails validation or succeeds with zero values")
+		}
+	}
+
 	// ---- U2 -----------------------------------------------------------------
 	need := func(key string, a, b *ssa.Call, an, bn, why string) {
 		switch {
